@@ -82,4 +82,163 @@ Section SpVec.
     (forall k, (k < n)%nat -> A i k = A' i k) -> (forall k, (k < n)%nat -> g k = g' k) ->
     mvec o n A g i = mvec o n A' g' i.
   Proof. intros HA Hg. unfold mvec. apply (sum_ext o). intros k Hk. now rewrite HA, Hg. Qed.
+
+  (* ---------- vectors built through from_entries ---------- *)
+  Lemma sv_assemble_ok d (es : list ent) :
+    (forall e, In e es -> (e_row e < d)%nat /\ e_col e = 0%nat) ->
+    exists v, sp_from_entries o d 1 es = Some v /\ sv_new v = Some v /\
+              sp_m v = d /\ sp_n v = 1%nat /\ sp_wf v /\ (forall P, psum P (sp_st v) = psum P es).
+  Proof.
+    intros B. destruct (sp_from_entries_ok o L d 1 es) as [v (Ev & (V1 & V2 & V3 & _) & V5)].
+    { intros e He. destruct (B e He). lia. }
+    exists v. splits; try assumption. now apply sv_new_some.
+  Qed.
+
+  (* col_vec(j) *)
+  Theorem sp_col_vec_spec a j : sp_wf a ->
+    match sp_col_vec o a j with
+    | Some v => (j < sp_n a)%nat /\ sv_is v (sp_m a) (fun i => entry o a i j)
+    | None => (sp_n a <= j)%nat
+    end.
+  Proof.
+    intros W. pose proof (proj1 (sp_wf_iff a) W) as [B _]. pose proof (proj1 (in_bounds_iff _ _ _) B) as Bnd.
+    unfold sp_col_vec. destruct (Nat.ltb_spec j (sp_n a)) as [Hj|Hj]; [|exact Hj].
+    destruct (sv_assemble_ok (sp_m a)
+                (map (fun e : ent => (e_row e, 0%nat, e_val e)) (filter (fun e : ent => e_col e =? j) (sp_st a))))
+      as [v (Ev & Nv & V1 & V2 & V3 & V5)].
+    { intros e' He'. apply in_map_iff in He'. destruct He' as [e [<- He]]. apply filter_In in He.
+      destruct He as [He _]. destruct (Bnd e He). cbn [e_row e_col fst snd]. now split. }
+    rewrite Ev. cbn [obind]. rewrite Nv. split; [exact Hj|].
+    unfold sv_is, C13Sparse.sp_is. splits; try assumption.
+    intros i c Hi Hc. replace c with 0%nat by lia.
+    rewrite !entry_psum, V5, (gsum_map_key o), (gsum_filter o), (psum_gsum o).
+    apply gsum_ext. intros e _. unfold key_eq. destruct (Nat.eqb_spec (e_col e) j); eqb_cases.
+  Qed.
+
+  (* ---------- from_dense_data ---------- *)
+  Lemma divmod_key n k i j : (j < n)%nat -> key_eq (k / n) (k mod n) i j = (k =? i * n + j).
+  Proof.
+    intros Hj. unfold key_eq. assert (Hn : n <> 0%nat) by lia.
+    pose proof (Nat.div_mod k n Hn) as D. pose proof (Nat.mod_upper_bound k n Hn) as U.
+    destruct (Nat.eqb_spec k (i * n + j)) as [->|Hne].
+    - rewrite Nat.div_add_l, Nat.div_small, Nat.add_0_r, Nat.eqb_refl by lia. cbn [andb].
+      rewrite Nat.add_comm, Nat.mod_add, Nat.mod_small by lia. apply Nat.eqb_refl.
+    - apply andb_false_iff. destruct (Nat.eqb_spec (k / n) i) as [E1|E1]; [|now left].
+      right. apply Nat.eqb_neq. intros E2. apply Hne. rewrite D, E1, E2. lia.
+  Qed.
+
+  Theorem sp_from_dense_data_spec m n data :
+    match sp_from_dense_data o m n data with
+    | Some a => sp_is a m n (fun i j => nth (i * n + j) data 0)
+    | None => (n = 0%nat /\ data <> []) \/
+              exists k, (k < length data)%nat /\ nth k data 0 <> 0 /\ (m * n <= k)%nat
+    end.
+  Proof.
+    unfold sp_from_dense_data. destruct data as [|x data'] eqn:Ed.
+    - cbn. unfold C13Sparse.sp_is. cbn [sp_m sp_n]. splits; try reflexivity.
+      intros i j _ _. destruct (i * n + j)%nat; reflexivity.
+    - rewrite <- Ed. destruct (Nat.eqb_spec n 0) as [Hn|Hn].
+      + left. split; [exact Hn|]. rewrite Ed. discriminate.
+      + rewrite (enumerate_map R 0 data), map_map. cbn [fst snd].
+        pose proof (sp_from_entries_spec o L m n (map (fun k => (k / n, k mod n, nth k data 0)) (seq 0 (length data)))) as S.
+        destruct (sp_from_entries o m n _) as [a|].
+        * destruct S as (_ & S & _). eapply sp_is_ext; [exact S|]. intros i j Hi Hj.
+          rewrite esum_psum, (psum_map_seq o L). cbn [e_row e_col e_val fst snd].
+          rewrite (sum_ext o (length data) _ (fun k => if k =? i * n + j then nth k data 0 else 0)).
+          -- destruct (Nat.ltb_spec (i * n + j) (length data)) as [H|H].
+             ++ now rewrite (sum_delta o L).
+             ++ rewrite (sum_delta_out o L) by exact H. now rewrite nth_overflow.
+          -- intros k _. now rewrite divmod_key.
+        * right. destruct S as [e [He [Hv Hb]]]. apply in_map_iff in He. destruct He as [k [<- Hk]].
+          apply in_seq in Hk. cbn [e_row e_col e_val fst snd] in *. exists k. splits; try lia; try assumption.
+          pose proof (Nat.mod_upper_bound k n Hn) as U. pose proof (Nat.div_mod k n Hn) as D.
+          assert (Hq : (m <= k / n)%nat) by lia. nia.
+  Qed.
+
+  (* ---------- from_col_vecs ---------- *)
+  Definition vec_wf (v : spmat) : Prop := sp_wf v /\ sp_n v = 1%nat.
+
+  Lemma sorted_map_mono_in (g : ent -> ent) (l : list ent) :
+    (forall x y, In x l -> In y l -> klt x y -> klt (g x) (g y)) ->
+    StronglySorted klt l -> StronglySorted klt (map g l).
+  Proof.
+    induction l as [|x r IH]; intros Hg S; cbn [map]; [constructor|].
+    apply StronglySorted_inv in S. destruct S as [S F]. constructor.
+    - apply IH; [|exact S]. intros a b Ha Hb. apply Hg; now right.
+    - apply Forall_forall. intros y Hy. apply in_map_iff in Hy. destruct Hy as [z [<- Hz]].
+      apply Hg; [now left|now right|]. rewrite Forall_forall in F. now apply F.
+  Qed.
+
+  Lemma cols_concat_spec m vs : (forall v, In v vs -> vec_wf v) -> forall j0,
+    match cols_concat m j0 vs with
+    | Some st =>
+        (forall v, In v vs -> sp_m v = m) /\ StronglySorted klt st /\
+        (forall e, In e st -> (e_row e < m)%nat /\ (j0 <= e_col e < j0 + length vs)%nat) /\
+        length st = fold_right (fun v acc => (sp_nnz v + acc)%nat) 0%nat vs /\
+        forall i j, psum (fun i' j' => key_eq i' j' i j) st
+                    = if (j0 <=? j) && (j <? j0 + length vs) then ventry o (nth (j - j0) vs (sv_zero 0)) i else 0
+    | None => exists v, In v vs /\ sp_m v <> m
+    end.
+  Proof.
+    induction vs as [|v r IH]; intros W j0; cbn [cols_concat].
+    - split; [intros ? []|]. split; [constructor|]. split; [intros ? []|]. split; [reflexivity|].
+      intros i j. cbn [length C13SpBase.psum]. rewrite Nat.add_0_r.
+      destruct (Nat.leb_spec j0 j); destruct (Nat.ltb_spec j j0); cbn [andb]; try reflexivity; lia.
+    - destruct (W v (or_introl eq_refl)) as [Wv Nv].
+      pose proof (proj1 (sp_wf_iff v) Wv) as [Bv Sv]. pose proof (proj1 (in_bounds_iff _ _ _) Bv) as Bnd.
+      destruct (Nat.eqb_spec (sp_m v) m) as [Em|Em].
+      + specialize (IH (fun x Hx => W x (or_intror Hx)) (S j0)).
+        destruct (cols_concat m (S j0) r) as [rest|]; cbn [obind].
+        * destruct IH as (I1 & I2 & I3 & I4 & I5). splits.
+          -- intros x [<-|Hx]; [exact Em|now apply I1].
+          -- apply sorted_app; [|exact I2|].
+             ++ apply sorted_map_mono_in; [|exact Sv]. intros x y Hx Hy. unfold C13SpBase.klt.
+                cbn [e_row e_col fst snd]. rewrite !key_lt_spec. destruct (Bnd x Hx), (Bnd y Hy). lia.
+             ++ intros x y Hx Hy. apply in_map_iff in Hx. destruct Hx as [z [<- Hz]].
+                destruct (I3 y Hy). unfold C13SpBase.klt. cbn [e_row e_col fst snd]. apply key_lt_spec. lia.
+          -- intros e He. apply in_app_iff in He. destruct He as [He|He].
+             ++ apply in_map_iff in He. destruct He as [z [<- Hz]]. destruct (Bnd z Hz).
+                cbn [e_row e_col fst snd length]. lia.
+             ++ destruct (I3 e He). cbn [length]. lia.
+          -- rewrite app_length, map_length. cbn [fold_right]. unfold sp_nnz at 1. f_equal. exact I4.
+          -- intros i j. rewrite (psum_app o L), I5, (gsum_map_key o). cbn [length].
+             assert (G : gsum (fun e : ent => key_eq (e_row e) j0 i j) (sp_st v)
+                         = if j =? j0 then ventry o v i else 0).
+             { destruct (Nat.eqb_spec j j0) as [->|Hne].
+               - unfold ventry. rewrite entry_psum, (psum_gsum o). apply gsum_ext. intros e He.
+                 destruct (Bnd e He). unfold key_eq. eqb_cases.
+               - apply gsum_false. intros e _. unfold key_eq. eqb_cases. }
+             rewrite G.
+             destruct (Nat.eqb_spec j j0) as [->|Hne].
+             ++ destruct (Nat.leb_spec (S j0) j0); [lia|]. destruct (Nat.leb_spec j0 j0); [|lia].
+                destruct (Nat.ltb_spec j0 (j0 + S (length r))); [|lia]. cbn [andb].
+                rewrite Nat.sub_diag. cbn [nth]. ring.
+             ++ destruct (Nat.leb_spec (S j0) j); destruct (Nat.leb_spec j0 j); try lia;
+                  destruct (Nat.ltb_spec j (S j0 + length r)); destruct (Nat.ltb_spec j (j0 + S (length r)));
+                  try lia; cbn [andb]; try ring.
+                replace (j - j0)%nat with (S (j - S j0)) by lia. cbn [nth]. ring.
+        * destruct IH as [x [Hx Hn]]. exists x. split; [now right|exact Hn].
+      + exists v. split; [now left|exact Em].
+  Qed.
+
+  Theorem sp_from_col_vecs_spec m vs : (forall v, In v vs -> vec_wf v) ->
+    match sp_from_col_vecs m vs with
+    | Some a => (forall v, In v vs -> sp_m v = m) /\
+                sp_is a m (length vs) (fun i j => ventry o (nth j vs (sv_zero 0)) i) /\
+                sp_nnz a = fold_right (fun v acc => (sp_nnz v + acc)%nat) 0%nat vs
+    | None => exists v, In v vs /\ sp_m v <> m
+    end.
+  Proof.
+    intros W. unfold sp_from_col_vecs. pose proof (cols_concat_spec m vs W 0) as C.
+    destruct (cols_concat m 0 vs) as [st|]; cbn [obind]; [|exact C].
+    destruct C as (C1 & C2 & C3 & C4 & C5). unfold try_csc.
+    assert (V : csc_validb m (length vs) st = true).
+    { unfold csc_validb. apply andb_true_iff. split; [|now apply sortedb_iff].
+      apply in_bounds_iff. intros e He. destruct (C3 e He). lia. }
+    rewrite V. splits; try assumption.
+    - unfold C13Sparse.sp_is. cbn [sp_m sp_n]. splits; try reflexivity; [exact V|].
+      intros i j Hi Hj. rewrite entry_psum. cbn [sp_st]. rewrite C5. cbn [Nat.leb Nat.add].
+      destruct (Nat.ltb_spec j (length vs)); [|lia]. cbn [andb]. now rewrite Nat.sub_0_r.
+    - unfold sp_nnz. cbn [sp_st]. exact C4.
+  Qed.
 End SpVec.
